@@ -2,9 +2,12 @@
 (* Leg M for C03 C04 C05 C19: every site/inner-site history up to length T    *)
 (* over S sites and NAt atoms, built one frame at a time.                     *)
 EXTENDS Sites, TLC, Json
-CONSTANTS T, S, NAt, MaxRes, DoExport
+CONSTANTS T, S, NAt, MaxRes, DoExport, Mixed
 SiteIds == 0..(S - 1)
+(* Mixed: overlapping site spheres (an explicit radius above half a site separation): the atom is recorded at one site while  *)
+(* inside the inner sphere of another.  Outside C02's domain (NonOverlap) but a legal input of everything downstream.          *)
 AtomStates == {<<NOSITE, NOSITE>>} \cup {<<s, NOSITE>> : s \in SiteIds} \cup {<<s, s>> : s \in SiteIds}
+              \cup (IF Mixed THEN {<<s, u>> : s \in SiteIds, u \in SiteIds} ELSE {})
 Frames == [1..NAt -> AtomStates]
 VARIABLE hist
 Init == hist = <<>>
